@@ -559,6 +559,7 @@ CORE_CFGS = {
     "tbtmr": (["A", "B"], {"VP_CAP": "2", "VP_CTXPERSIST": "1", "VP_SETUP": "loop2"}),
     "btmo": (["A", "B"], {"VP_CAP": "2", "VP_CTXPERSIST": "1", "VP_SETUP": "loop2", "VP_MAXPAY": "2"}),
     "tick": (["A", "B"], {"VP_CAP": "2", "VP_CTXPERSIST": "1"}),
+    "tickh": (["A", "B"], {"VP_HOOKS": "A:s,B:e", "VP_CAP": "2", "VP_CTXPERSIST": "1"}),
     "mem": (["A", "B"], {"VP_CAP": "2", "VP_CTXPERSIST": "1", "VP_SETUP": "loop2", "VP_MAXPAY": "2"}),
     "memfd": (["A", "B"], {"VP_CAP": "2", "VP_CTXPERSIST": "1", "VP_SETUP": "loop2", "VP_NKEYS": "1"}),
     "foreign": (["A", "B"], {"VP_HOOKS": "A:esx,B:x", "VP_CAP": "2"}),
@@ -642,7 +643,7 @@ def c08(prop, tier, seed):
 
 @check("C19")
 def c19(prop, tier, seed):
-    return core_check(prop, tier, seed, ["sysmq", "sysc", "tick"], ["sysm", "sysc", "sysmq", "tick"],
+    return core_check(prop, tier, seed, ["sysmq", "sysc", "tick", "tickh"], ["sysm", "sysc", "sysmq", "tick", "tickh"],
                       "Focus: subscriptions to the system topics; notifications are ordinary mailbox messages (sender, topic, system flag compared).")
 
 
@@ -680,7 +681,7 @@ def c03(prop, tier, seed):
 
 @check("C20")
 def c20(prop, tier, seed):
-    return core_check(prop, tier, seed, ["fdev", "srca", "tick", "memfd", "kev", "tsk"], ["fdev", "srca", "tick", "memfd", "kev", "tsk", "life", "tb", "btmo"],
+    return core_check(prop, tier, seed, ["fdev", "srca", "tick", "tickh", "memfd", "kev", "tsk"], ["fdev", "srca", "tick", "tickh", "memfd", "kev", "tsk", "life", "tb", "btmo"],
                       "Focus: descriptor ledger: library descriptors (poll handle, pipes, timer / signal / path-watch / pid / task-notification descriptors) all closed in clean states, user descriptors closed only through auto-close and exactly once.", Dq=5, Dt=7)
 
 
